@@ -940,6 +940,28 @@ pub fn family_cluster_tw() -> Vec<PProblem> {
             }
         }
     }
+    // alternative places: a job can join a cluster through its SECOND place (the first one is far away / at another cluster's spot)
+    for wi in [0usize, 1, 3] {
+        let ws = &window_sets[wi];
+        for (si, serving) in servings.iter().enumerate() {
+            for visiting in ["continue", "return"] {
+                let jobs = vec![
+                    job("t1", vec![task(Delivery, vec![place(4, 3., &ws[0], Some("far")), place(1, 3., &ws[0], Some("near"))], &[1])]),
+                    job("t2", vec![task(Delivery, vec![place(2, 2., &ws[1], None)], &[1])]),
+                    job("t3", vec![task(Delivery, vec![place(4, 2., &ws[2], None), place(3, 2., &ws[2], Some("alt"))], &[1])]),
+                    job("t4", vec![task(Pickup, vec![place(1, 4., &ws[3], None)], &[1])]),
+                    job("far", vec![task(Pickup, vec![place(4, 1., &[], None)], &[1])]),
+                ];
+                let mut p = base(format!("cluster/tw-alt/w{wi}/s{si}/{visiting}"), jobs, vec![vehicle_type("v", 2, &[4], vec![shift(ShiftKind::Closed)])]);
+                p.matrices = vec![line_matrix("car", &[0, 50, 53, 57, 120])];
+                p.clustering = Some(json!({
+                    "type": "vicinity", "profile": {"matrix": "car"}, "threshold": {"duration": 30.0, "distance": 60.0},
+                    "visiting": visiting, "serving": serving,
+                }));
+                out.push(p);
+            }
+        }
+    }
     out
 }
 
